@@ -1,7 +1,7 @@
 (* C08 -- an inode stays valid exactly as long as the client holds lookup references to it.
    Only statements, closed by [exact]; proofs live in Proofs/Inodes*.v. *)
 From Coq Require Import List NArith Bool.
-From FB Require Import Model.Inodes Proofs.Inodes.
+From FB Require Import Model.Inodes Proofs.Inodes Proofs.InodesNum.
 Import ListNotations.
 Local Open Scope N_scope.
 
@@ -62,6 +62,33 @@ Theorem C08_readdirplus_exact : forall c s ents,
     refs_of s j + count_delivered (fst (readdir_entries c true s ents)) j.
 Proof. exact readdirplus_exact. Qed.
 
+(* ---- numbers and host identities (hypothesis for handle mode, [wf_t]: every file of the export yields a
+   file handle, i.e. a file handle identifies the file; without handles the identity is (ino, dev, mnt)) *)
+(* the key invariants hold in a fresh server and are kept by every request, in all four modes *)
+Theorem C08_keys_invariant : forall c s o, KInv c s -> op_wf c o -> KInv c (snd (step c s o)).
+Proof. exact step_KInv. Qed.
+Theorem C08_keys_invariant_fresh : forall c root, wf_t c root -> KInv c (fresh c root).
+Proof. exact fresh_KInv. Qed.
+(* a host file has one inode number (the converse, one file per number, is the table being a map) *)
+Theorem C08_one_number_per_identity : forall c s i j d d',
+  IA s -> IFh c s -> dget s i = Some d -> dget s j = Some d' -> same_key c d d' -> i = j.
+Proof. exact one_number_per_identity. Qed.
+(* counter modes: a key bound to a number stays bound to it through lookups and forgets, a lookup
+   returns the bound number and binds its key: a file looked up again after being forgotten gets the same number *)
+Theorem C08_stable_lookup_partial : forall c s t r s' id fh i,
+  uhi c = false -> is_none fh = is_none (eff_fh c t) ->
+  do_lookup c s t = (r, s') -> get_inode_locked s id fh = Some i -> get_inode_locked s' id fh = Some i.
+Proof. exact do_lookup_keeps_number. Qed.
+Theorem C08_stable_forget_partial : forall c s i n id fh j,
+  uhi c = false -> get_inode_locked s id fh = Some j -> get_inode_locked (forget_one c s i n) id fh = Some j.
+Proof. exact forget_keeps_number. Qed.
+Theorem C08_lookup_returns_bound_number_partial : forall c s t s' i j,
+  uhi c = false -> IFh c s -> wf_t c t ->
+  do_lookup c s t = (LOk j, s') ->
+  (get_inode_locked s (t_id t) (eff_fh c t) = Some i -> j = i) /\
+  get_inode_locked s' (t_id t) (eff_fh c t) = Some j.
+Proof. exact lookup_returns_bound_number. Qed.
+
 (* witnesses / non-vacuity *)
 Example C08_d9_witness :
   fst (run d9_cfg (fresh d9_cfg d9_root) d9_hist) = [RErr EBADF] /\
@@ -85,3 +112,9 @@ Print Assumptions C08_valid_iff.
 Print Assumptions C08_root_stays.
 Print Assumptions C08_forget_root_noop.
 Print Assumptions C08_readdirplus_exact.
+Print Assumptions C08_keys_invariant.
+Print Assumptions C08_keys_invariant_fresh.
+Print Assumptions C08_one_number_per_identity.
+Print Assumptions C08_stable_lookup_partial.
+Print Assumptions C08_stable_forget_partial.
+Print Assumptions C08_lookup_returns_bound_number_partial.
